@@ -6,6 +6,7 @@ CONSTANTS
   MAXU = 4
   OBJS = {"p", "q"}
   PROP = "C12"
+  PERT = {1}
 SPECIFICATION Spec
 INVARIANTS C12 C02 C03 NoJunk EmitReplay
 CHECK_DEADLOCK FALSE
